@@ -85,7 +85,7 @@ CLAIMED["C10"] = dict(
           "of every agent's truth state per epoch; TLC validates each family against TruthPairs.tla (a value once defined for "
           "(agent, epoch) must be repeated bit for bit)."),
     ref="5 C10", technique="TLA+ action property NonInterference on Resonaate.tla + TLC; trace validation of digest records of scenario families (TruthPairs.tla)",
-    note=TRUST + "; digests are the first 56 bits of SHA-256 over float64 bytes; variants run the truth through identical float operations",
+    note=TRUST + "; digests are the first 56 bits of SHA-256 over float64 bytes; variants run the truth through identical float operations; every variant runs in a forked process of its own",
     engine="resonaate-system")
 
 CLAIMED["C19"] = dict(
@@ -162,7 +162,9 @@ CLAIMED["C02"] = dict(
           "kinds x background targets. Every record of the real Sensor.collectObservations (about 5k quick / 64k thorough, real Radar / "
           "AdvRadar / Optical sensors on ground and space hosts from the repository's configurations plus placements on the edges +- "
           "delta of every constraint, the 0/360 seam, zenith and horizon) is validated by TLC against TraceSensorChain.tla; constraint "
-          "values and noise-free measurements come from an independent first-principles geometry."),
+          "values and noise-free measurements come from an independent first-principles geometry. 'Within the stated noise' is "
+          "additionally decided by a seeded statistic: 300 repeated observations per selected sensor (diagonal and correlated "
+          "configured covariance) whitened with the configured covariance must have mean 0 and covariance I within 5.5 standard errors."),
     ref="5 C02", technique="TLA+ spec SensorChain.tla + TLC exhaustive; trace validation of real collectObservations records against an independent geometry oracle",
     note=TRUST + "; the code's FK5 rotation at the authoritative datetime and its Sun ephemeris; stated tolerance bands (undecided accepted both ways); photometric formulas checked for wiring only",
     engine="sensor-chain")
